@@ -252,6 +252,9 @@ DeadTail(block) ==
     \E i \in 1..Len(block) :
         LET s == block[i]
         IN \/ i < Len(block) /\ CannotComplete(s)
+           \* the else clause of a try statement whose body cannot complete, of a `while True:` loop
+           \/ s.k = "try" /\ s.orelse # << >> /\ BlockCannotComplete(s.body)
+           \/ s.k = "while" /\ s.true /\ s.orelse # << >>
            \/ s.k \in IfKinds \cup LoopKinds /\ (DeadTail(s.body) \/ DeadTail(s.orelse))
            \/ s.k \in WithKinds /\ DeadTail(s.body)
            \/ s.k = "match" /\ \E j \in 1..Len(s.cases) : DeadTail(s.cases[j].body)
